@@ -57,7 +57,10 @@ Definition stub_handler (s : script) (nupd : Z) : list obj -> list obj -> option
   fun _ _ => match s with SErrFinal => None | _ => Some (zseq 0 (Z.to_nat nupd)) end.
 
 (* ---------- cases ---------- *)
-Inductive obs_outcome := ODelivered | OFailed | OOther.   (* OOther: crash, livelock, stall *)
+Inductive obs_outcome :=
+| ODelivered | OFailed
+| OStalled      (* the runtime's synchronize neither returned nor sent anything for the stall bound *)
+| OOther.       (* more messages than the proved bound *)
 
 Definition obs_msg := (list (Z * Z) * list (Z * Z) * bool * Z)%type.  (* pod id runs, container id runs, More, proto.Size *)
 
@@ -77,7 +80,9 @@ Record sync_case := {
   sc_hpods : list (Z * Z);     (* stub: id runs handed to the handler *)
   sc_hctrs : list (Z * Z);
   sc_upd : list Z;             (* updates the runtime's sync call-back received *)
-  sc_active : bool             (* the plugin received the event sent after registration *)
+  sc_active : bool;            (* the plugin received the event sent after registration *)
+  sc_usable : bool             (* after the registration the runtime's plugin-sync lock was free again
+                                  (BlockPluginSync returned): the next plugin can register *)
 }.
 
 Definition case_pods (c : sync_case) : list obj := number 0 (expand_w (sc_wp c)).
@@ -91,7 +96,9 @@ Record proj := {
   pj_msgs : list pmsg;
   pj_calls : list (list Z * list Z);
   pj_upd : list Z;
-  pj_active : bool
+  pj_active : bool;
+  pj_usable : bool                      (* acceptPluginConnections: finishedPluginSync() runs whether or not the
+                                           synchronisation succeeded; never when synchronize does not return *)
 }.
 
 Definition proj_chunk (c : sync_case) (ch : chunk obj obj) : pmsg :=
@@ -108,10 +115,10 @@ Definition active_after (sync_ok : bool) : bool :=
 
 Definition proj_outcome {PS} (c : sync_case) (calls : PS -> list (list obj * list obj)) (o : outcome obj obj Z PS) : proj :=
   match o with
-  | Delivered s u st => {| pj_outcome := 0; pj_msgs := map (proj_chunk c) s; pj_calls := proj_calls (calls st); pj_upd := u; pj_active := active_after (outcome_ok o) |}
-  | Failed _ s st => {| pj_outcome := 1; pj_msgs := map (proj_chunk c) s; pj_calls := proj_calls (calls st); pj_upd := []; pj_active := active_after (outcome_ok o) |}
-  | Panic s => {| pj_outcome := 2; pj_msgs := map (proj_chunk c) s; pj_calls := []; pj_upd := []; pj_active := false |}
-  | OutOfFuel s => {| pj_outcome := 3; pj_msgs := map (proj_chunk c) s; pj_calls := []; pj_upd := []; pj_active := false |}
+  | Delivered s u st => {| pj_outcome := 0; pj_msgs := map (proj_chunk c) s; pj_calls := proj_calls (calls st); pj_upd := u; pj_active := active_after (outcome_ok o); pj_usable := true |}
+  | Failed _ s st => {| pj_outcome := 1; pj_msgs := map (proj_chunk c) s; pj_calls := proj_calls (calls st); pj_upd := []; pj_active := active_after (outcome_ok o); pj_usable := true |}
+  | Panic s => {| pj_outcome := 2; pj_msgs := map (proj_chunk c) s; pj_calls := []; pj_upd := []; pj_active := false; pj_usable := false |}
+  | OutOfFuel s => {| pj_outcome := 3; pj_msgs := map (proj_chunk c) s; pj_calls := []; pj_upd := []; pj_active := false; pj_usable := false |}
   end.
 
 Definition model_proj (c : sync_case) : proj :=
@@ -127,11 +134,12 @@ Definition model_proj (c : sync_case) : proj :=
                    (sync_fuel pods ctrs) pods ctrs 0).
 
 Definition obs_proj (c : sync_case) : proj :=
-  {| pj_outcome := match sc_outcome c with ODelivered => 0 | OFailed => 1 | OOther => 4 end;
+  {| pj_outcome := match sc_outcome c with ODelivered => 0 | OFailed => 1 | OStalled => 3 | OOther => 4 end;
      pj_msgs := map (fun m : obs_msg => let '(pr, cr, more, sz) := m in (expand_ids pr, expand_ids cr, more, sz)) (sc_msgs c);
      pj_calls := repeat (expand_ids (sc_hpods c), expand_ids (sc_hctrs c)) (Z.to_nat (sc_calls c));
      pj_upd := sc_upd c;
-     pj_active := sc_active c |}.
+     pj_active := sc_active c;
+     pj_usable := sc_usable c |}.
 
 Definition zlist_eqb := list_eqb Z.eqb.
 Definition pmsg_eqb (a b : pmsg) : bool :=
@@ -140,7 +148,7 @@ Definition pmsg_eqb (a b : pmsg) : bool :=
 Definition proj_eqb (a b : proj) : bool :=
   (pj_outcome a =? pj_outcome b) && list_eqb pmsg_eqb (pj_msgs a) (pj_msgs b) &&
   list_eqb (pair_eqb zlist_eqb zlist_eqb) (pj_calls a) (pj_calls b) &&
-  zlist_eqb (pj_upd a) (pj_upd b) && Bool.eqb (pj_active a) (pj_active b).
+  zlist_eqb (pj_upd a) (pj_upd b) && Bool.eqb (pj_active a) (pj_active b) && Bool.eqb (pj_usable a) (pj_usable b).
 
 Definition corr_sync (c : sync_case) : bool := proj_eqb (model_proj c) (obs_proj c).
 
@@ -156,6 +164,8 @@ Definition holds_sync (c : sync_case) : bool :=
   let o := obs_proj c in
   let np := length (expand_w (sc_wp c)) in
   let nc := length (expand_w (sc_wc c)) in
+  (* whatever the outcome, the runtime can go on: the next plugin can register *)
+  sc_usable c &&
   match sc_outcome c with
   | ODelivered =>
       (* exactly the supplied pods and containers, each once, in the runtime's order *)
@@ -171,7 +181,7 @@ Definition holds_sync (c : sync_case) : bool :=
   | OFailed =>
       (* clean failure: not activated; and failure is acceptable only when delivery is not owed *)
       negb (sc_active c) && negb (must_deliver c)
-  | OOther => false
+  | OStalled | OOther => false     (* neither delivered nor failed cleanly *)
   end.
 
 (* ====================================================================================== *)
@@ -190,7 +200,8 @@ Record attempt := {
   at_outcome : obs_outcome;    (* what the runtime's sync call-back was told *)
   at_calls : list (list (Z * Z) * list (Z * Z));   (* handler invocations during this connection: id runs *)
   at_upd : list Z;             (* updates the runtime's sync call-back received *)
-  at_active : bool             (* the plugin received the event sent after this registration *)
+  at_active : bool;            (* the plugin received the event sent after this registration *)
+  at_usable : bool             (* the runtime's plugin-sync lock was free again after this registration *)
 }.
 
 Record resync_case := {
@@ -221,11 +232,11 @@ Fixpoint model_attempts (rc : resync_case) (st : stub_state obj obj) (l : list a
     let '(p, st') :=
       match o with
       | Delivered s u st' =>
-          ({| pj_outcome := 0; pj_msgs := map (proj_chunk_m (rs_more rc)) s; pj_calls := new_calls st'; pj_upd := u; pj_active := active_after true |}, st')
+          ({| pj_outcome := 0; pj_msgs := map (proj_chunk_m (rs_more rc)) s; pj_calls := new_calls st'; pj_upd := u; pj_active := active_after true; pj_usable := true |}, st')
       | Failed _ s st' =>
-          ({| pj_outcome := 1; pj_msgs := map (proj_chunk_m (rs_more rc)) s; pj_calls := new_calls st'; pj_upd := []; pj_active := active_after false |}, st')
-      | Panic s => ({| pj_outcome := 2; pj_msgs := map (proj_chunk_m (rs_more rc)) s; pj_calls := []; pj_upd := []; pj_active := false |}, st)
-      | OutOfFuel s => ({| pj_outcome := 3; pj_msgs := map (proj_chunk_m (rs_more rc)) s; pj_calls := []; pj_upd := []; pj_active := false |}, st)
+          ({| pj_outcome := 1; pj_msgs := map (proj_chunk_m (rs_more rc)) s; pj_calls := new_calls st'; pj_upd := []; pj_active := active_after false; pj_usable := true |}, st')
+      | Panic s => ({| pj_outcome := 2; pj_msgs := map (proj_chunk_m (rs_more rc)) s; pj_calls := []; pj_upd := []; pj_active := false; pj_usable := false |}, st)
+      | OutOfFuel s => ({| pj_outcome := 3; pj_msgs := map (proj_chunk_m (rs_more rc)) s; pj_calls := []; pj_upd := []; pj_active := false; pj_usable := false |}, st)
       end in
     p :: model_attempts rc (stub_close close_resets_sync st') r
   end.
@@ -234,11 +245,12 @@ Definition expand_msg (m : obs_msg) : pmsg :=
   let '(pr, cr, more, sz) := m in (expand_ids pr, expand_ids cr, more, sz).
 
 Definition obs_attempt (a : attempt) : proj :=
-  {| pj_outcome := match at_outcome a with ODelivered => 0 | OFailed => 1 | OOther => 4 end;
+  {| pj_outcome := match at_outcome a with ODelivered => 0 | OFailed => 1 | OStalled => 3 | OOther => 4 end;
      pj_msgs := map expand_msg (at_msgs a);
      pj_calls := map (fun pc => (expand_ids (fst pc), expand_ids (snd pc))) (at_calls a);
      pj_upd := at_upd a;
-     pj_active := at_active a |}.
+     pj_active := at_active a;
+     pj_usable := at_usable a |}.
 
 Definition corr_resync (rc : resync_case) : bool :=
   list_eqb proj_eqb (model_attempts rc stub_init (rs_attempts rc)) (map obs_attempt (rs_attempts rc)).
@@ -264,6 +276,8 @@ Definition holds_attempt (rc : resync_case) (a : attempt) : bool :=
   (* receiver (C09_sessions_isolated): the invocations during this connection are exactly what
      this connection's own messages owe - nothing of an earlier connection, at most one *)
   calls_eqb (pj_calls o) (session_delivery (obs_session (pj_msgs o))) &&
+  (* clean, whatever the outcome: the runtime can go on, the next registration is not blocked *)
+  at_usable a &&
   match at_outcome a with
   | ODelivered =>
       (* the messages carry exactly the supplied state, each object once, in order *)
@@ -277,7 +291,7 @@ Definition holds_attempt (rc : resync_case) (a : attempt) : bool :=
       (* clean failure: no handler invocation, not activated; acceptable only when delivery is not owed (I4) *)
       is_nil (pj_calls o) && negb (at_active a) &&
       negb (min_chunks_fit (rs_hdr rc) (rs_more rc) (rs_limit rc) wp wc)
-  | OOther => false
+  | OStalled | OOther => false
   end.
 
 Definition holds_resync (rc : resync_case) : bool := forallb (holds_attempt rc) (rs_attempts rc).
